@@ -169,6 +169,9 @@ func (p *Protocol) Start() {
 
 		if p.muxerDoneChan == nil {
 			p.SendError(errors.New("could not register protocol with muxer"))
+			// Nothing was started, so nothing will ever close doneChan:
+			// close it here to release everything that waits for DoneChan()
+			close(p.doneChan)
 			return
 		}
 
